@@ -1,0 +1,46 @@
+//go:build verif
+
+package scanner
+
+import (
+	"fmt"
+	"reflect"
+	"runtime"
+	"strings"
+)
+
+func verifStepName(f stepFunc) string {
+	if f == nil {
+		return "nil"
+	}
+	n := runtime.FuncForPC(reflect.ValueOf(f).Pointer()).Name()
+	return n[strings.LastIndex(n, ".")+1:]
+}
+
+// VerifState returns a read-only, canonical description of the scanner's control state
+// (current step, step stack, pending lexeme events, and the three predicates derived
+// from the parameters of the last directive). It is compiled only under the verif tag.
+func (s *Scanner) VerifState() string {
+	var b strings.Builder
+	b.WriteString(verifStepName(s.step))
+	b.WriteString("|")
+	for _, f := range s.stepStack {
+		b.WriteString(verifStepName(f))
+		b.WriteString(",")
+	}
+	b.WriteString("|")
+	for _, e := range s.stack {
+		b.WriteString(e.type_.String())
+		b.WriteString(",")
+	}
+	b.WriteString("|")
+	for _, e := range s.finds {
+		b.WriteString(e.type_.String())
+		b.WriteString(",")
+	}
+	fmt.Fprintf(&b, "|%v,%v,%v",
+		s.isDirectiveParameterHasTypeOrAnyOrEmpty(),
+		s.isDirectiveParameterHasAnyOrEmpty(),
+		s.isDirectiveParameterHasRegexNotation())
+	return b.String()
+}
